@@ -164,6 +164,14 @@ Fixpoint hrun (c : cfg) (S : sys) (hs : list hop) : sys * list obs :=
       let '(S2, os) := hrun c S1 t in (S2, o :: os)
   end.
 
+(* a history is well-formed when NewTorrent is only called again while nobody is inside WritePiece
+   (torrent.go:51: two Torrent instances on one file are undefined behaviour) *)
+Fixpoint hist_ok (c : cfg) (S : sys) (hs : list hop) : bool :=
+  match hs with
+  | [] => true
+  | h :: t => (match h with HReopen => idle S | HAdv _ => true end) && hist_ok c (hstep c S h) t
+  end.
+
 (* ---- the property on one observed trace (spec-based: uses the blob, the metainfo geometry,
         the callers' inputs and the implementation's observations; never the model's state) ---- *)
 Section Oracle.
